@@ -432,6 +432,10 @@ pub fn summary(c: &Composer, r: &Run) -> String {
         hp.push_u64(*i as u64);
         hp.push(x);
     }
+    let mut hpr = Hasher::new();
+    for (i, _) in &s.public_inputs {
+        hpr.push_u64(*i as u64);
+    }
     let mut hr = Hasher::new();
     for x in &r.rets {
         hr.push_u64(*x);
@@ -442,13 +446,14 @@ pub fn summary(c: &Composer, r: &Run) -> String {
     }
     let errs: Vec<String> = r.errs.iter().map(|(i, e)| format!("{}:{}", i, e)).collect();
     format!(
-        "gates={} wit={} pis={} hg={} hw={} hp={} hr={} rv={} errs=[{}]",
+        "gates={} wit={} pis={} hg={} hw={} hp={} hpr={} hr={} rv={} errs=[{}]",
         s.gates.len(),
         s.witnesses.len(),
         s.public_inputs.len(),
         hg.hex(),
         hw.hex(),
         hp.hex(),
+        hpr.hex(),
         hr.hex(),
         rv.hex(),
         errs.join(",")
